@@ -64,6 +64,8 @@ def _observe(case: dict) -> dict:
         a, b = B.loc(case["a"]), B.loc(case["b"])
         event["ov"] = P.result(lambda: bool(L.locations_overlap(a, b)), False)
         event["co"] = P.result(lambda: bool(L.location_contains_other(a, b)), False)
+        # the other spellings of the same question: the method and the `in` operator of the location classes
+        event["cos"] = P.result(lambda: [bool(a.contains(b)), bool(b in a)], [False, False])
         event["di"] = P.result(lambda: int(L.get_distance_between_locations(a, b, wrap)), 0)
         event["cn"] = P.result(lambda: L.connect_locations([B.loc(case["a"]), B.loc(case["b"])], wrap), P.DUMMY_LOC, P.loc)
         event["cn2"] = P.result(lambda: L.connect_locations([B.loc(case["b"]), B.loc(case["a"])], wrap), P.DUMMY_LOC, P.loc)
@@ -243,7 +245,7 @@ def run(ctx):
     for idx, case in enumerate(cases):
         case["id"] = idx
     samples = {}
-    keys = ("ov", "co", "di", "cn", "cn2", "cnt", "ret", "rt", "br", "fw", "perms")
+    keys = ("ov", "co", "cos", "di", "cn", "cn2", "cnt", "ret", "rt", "br", "fw", "perms")
 
     def describe(case, event):
         locs = [case[k] for k in ("a", "b") if k in case] + case.get("locs", [])
